@@ -40,7 +40,21 @@ fn text_of_len(len: usize, multi: bool) -> String {
 
 /// state: 0 inline/heap exact (From<&str>), 1 static, 2 heap with spare capacity, 3 handle shorter than
 /// its buffer's other user, 4 sole survivor of a shared buffer
-pub fn clone_sweep_case(len: usize, state: usize, clones: usize, multi: bool) -> Result<bool, (String, String)> {
+pub fn clone_sweep_case(len: usize, state: usize, clones: usize, multi: bool, bump: usize) -> Result<bool, (String, String)> {
+    // a panic of a clone-like call (reference count "overflow" far below what the count can hold) is a finding,
+    // not a harness error
+    match std::panic::catch_unwind(|| clone_sweep_inner(len, state, clones, multi, bump)) {
+        Ok(r) => r,
+        Err(p) => {
+            let msg = p.downcast_ref::<String>().cloned().or_else(|| p.downcast_ref::<&str>().map(|s| s.to_string())).unwrap_or_default();
+            Err(("C08.any_number".to_string(), format!("a clone-like call of a {len}-byte string (state {state}) whose buffer already has {bump} more users panicked: {msg}")))
+        }
+    }
+}
+
+/// `bump`: the buffer's reference count is raised by this much before the clones (as if that many other handles
+/// existed) and lowered again before anything is dropped
+fn clone_sweep_inner(len: usize, state: usize, clones: usize, multi: bool, bump: usize) -> Result<bool, (String, String)> {
     shadow::with(|h| {
         h.begin_case();
         h.giant_limit = 64 << 20;
@@ -74,7 +88,16 @@ pub fn clone_sweep_case(len: usize, state: usize, clones: usize, multi: bool) ->
     let heap = src.is_heap_allocated();
     let src_ptr = src.as_ptr() as usize;
     let inline = !heap && src_ptr >= &src as *const _ as usize && src_ptr < &src as *const _ as usize + 16;
-    let base_rc = shadow::refcount_of(&src);
+    let mut base_rc = shadow::refcount_of(&src);
+    if bump > 0 {
+        match base_rc {
+            Some(rc) => {
+                shadow::set_refcount(&src, rc + bump);
+                base_rc = Some(rc + bump);
+            }
+            None => return Ok(false),
+        }
+    }
     let before = requests();
     let mut copies: Vec<LeanString> = Vec::with_capacity(clones);
     let mut other_allocs = 0u64;
@@ -131,6 +154,9 @@ pub fn clone_sweep_case(len: usize, state: usize, clones: usize, multi: bool) ->
         if shadow::refcount_of(&src) != Some(want) {
             return fail("C03.refcount", format!("after {clones} clones the reference count is {:?}, expected {want}", shadow::refcount_of(&src)));
         }
+        if bump > 0 {
+            shadow::set_refcount(&src, want - bump);
+        }
     }
     // dropping either side leaves the other intact
     let keep_first = copies.len() > 1;
@@ -170,7 +196,7 @@ pub fn c08(tier: Tier, seed: u64) -> Verdict {
     lens.extend([100, 255, 256, 1024, 65536]);
     lens.push(tier.pick(1 << 20, 4 << 20));
     let clone_counts: Vec<usize> = tier.pick(vec![1, 2, 5, 64], (1..=64).collect());
-    let mut cases: Vec<(usize, usize, usize, bool)> = Vec::new();
+    let mut cases: Vec<(usize, usize, usize, bool, usize)> = Vec::new();
     for &len in &lens {
         for state in 0..5 {
             for &n in &clone_counts {
@@ -178,7 +204,25 @@ pub fn c08(tier: Tier, seed: u64) -> Verdict {
                     if len > 4096 && (multi || n > 5) {
                         continue;
                     }
-                    cases.push((len, state, n, multi));
+                    cases.push((len, state, n, multi, 0));
+                }
+            }
+        }
+    }
+    // "any number of clones": buffers that already have very many users (reached by overwriting the count, which
+    // would otherwise take minutes to hours of cloning per case)
+    let top = isize::MAX as usize;
+    let mut bumps: Vec<usize> = vec![255, 256, 65_535, 65_536, (1 << 24) - 3, (1 << 31) - 70, (1 << 31) - 3, 1 << 31, top / 2 - 3, top - 1000];
+    #[cfg(target_pointer_width = "64")]
+    bumps.extend([(1usize << 32) - 70, (1 << 32) - 3, 1 << 32, 1 << 40, (1 << 48) - 2, (1 << 56) - 3, 1 << 56, (1 << 62) - 3]);
+    bumps.retain(|b| *b <= top - 1000);
+    bumps.sort_unstable();
+    bumps.dedup();
+    for &len in &[17usize, 40, 300, 65536] {
+        for state in [0usize, 2, 3, 4] {
+            for &n in &[1usize, 5, 64] {
+                for &b in &bumps {
+                    cases.push((len, state, n, false, b));
                 }
             }
         }
@@ -187,21 +231,21 @@ pub fn c08(tier: Tier, seed: u64) -> Verdict {
         let mut m = Merged::new();
         let mut i = shard;
         while i < cases.len() {
-            let (len, state, n, multi) = cases[i];
+            let (len, state, n, multi, bump) = cases[i];
             m.evaluations += 1;
-            match clone_sweep_case(len, state, n, multi) {
+            match clone_sweep_case(len, state, n, multi, bump) {
                 Ok(nt) => {
                     if nt {
                         m.distinct.insert(digest(&cases[i]));
                     }
                     if m.samples.is_empty() && nt {
-                        m.samples.push(json!({"kind": "clone_sweep", "len": len, "state": state, "clones": n, "multi": multi}));
+                        m.samples.push(json!({"kind": "clone_sweep", "len": len, "state": state, "clones": n, "multi": multi, "bump": bump}));
                     }
                 }
                 Err((clause, detail)) => {
                     if clause.starts_with("C08") {
                         m.violation = Some(Violation {
-                            case: json!({"kind": "clone_sweep", "len": len, "state": state, "clones": n, "multi": multi}),
+                            case: json!({"kind": "clone_sweep", "len": len, "state": state, "clones": n, "multi": multi, "bump": bump}),
                             clause,
                             step: 0,
                             detail,
@@ -233,7 +277,7 @@ pub fn c08(tier: Tier, seed: u64) -> Verdict {
         tier,
         seed,
         "exploration",
-        "sweep: lengths 0..=64, 100, 255, 256, 1 KiB, 64 KiB, 1 MiB (thorough 4 MiB) x 5 source states (direct, static, spare capacity, handle shorter than the buffer's other user, sole survivor) x {1,2,5,64} (thorough 1..=64) clone-like calls rotating clone / From<&LeanString> / to_lean_string / try_to_lean_string / clone_from, then drops in both orders; plus every clone-like operation inside sharing-heavy proptest histories; oracle: zero allocator requests, same pointer (heap/static) or equal handle bytes (inline), equality, reference count = live handles; non-trivial = clone-like call on a heap or static source; distinct sweep cases and history digests",
+        "sweep: lengths 0..=64, 100, 255, 256, 1 KiB, 64 KiB, 1 MiB (thorough 4 MiB) x 5 source states (direct, static, spare capacity, handle shorter than the buffer's other user, sole survivor) x {1,2,5,64} (thorough 1..=64) clone-like calls rotating clone / From<&LeanString> / to_lean_string / try_to_lean_string / clone_from, then drops in both orders; the same on heap buffers whose reference count was first raised by 255 ... 2^62 (around every power-of-two boundary a narrower counter could have), standing for that many existing clones; plus every clone-like operation inside sharing-heavy proptest histories; oracle: zero allocator requests, same pointer (heap/static) or equal handle bytes (inline), equality, reference count = live handles; non-trivial = clone-like call on a heap or static source; distinct sweep cases and history digests",
         ASSUME_HIST,
         &merged,
         t0.elapsed().as_secs_f64(),
@@ -920,7 +964,7 @@ pub fn replay_sweep(kind: &str, case: &Value) -> Option<Vec<(usize, String, Stri
     let u = |k: &str| case.get(k).and_then(|v| v.as_u64()).map(|v| v as usize);
     let r: Result<(), (String, String)> = match kind {
         "niche" => niche_case(u("storage")?, u("len")?, u("last")? as u32),
-        "clone_sweep" => clone_sweep_case(u("len")?, u("state")?, u("clones")?, case.get("multi")?.as_bool()?).map(|_| ()),
+        "clone_sweep" => clone_sweep_case(u("len")?, u("state")?, u("clones")?, case.get("multi")?.as_bool()?, u("bump").unwrap_or(0)).map(|_| ()),
         "ctor" => {
             let route = ROUTES.iter().position(|r| Some(*r) == case.get("route").and_then(|v| v.as_str()))?;
             ctor_case(route, case.get("text")?.as_str()?)
